@@ -163,7 +163,17 @@ Reaches(a, f, n) == Act(a, f, In1(a, n))
 
 (* ------------------------- unsupported topologies ---------------------- *)
 (* Scenario predicates of the known findings of C09 (DESIGN.md section 5)  *)
-KF_Reuse(a) == \E n \in Layers(a) : Searchable(a, n) /\ Cardinality(CallSites(a, Owner(a, n))) > 1
+\* A searchable layer object with several call sites has ONE output mask and ONE input calculator.  That is
+\* consistent iff all its call sites write into the same sharing component and read tensors whose alive
+\* pattern is governed by the same masker (e.g. a weight-shared residual block h' = relu(B(h)) + h).
+ConsistentReuse(a, s1, s2) ==
+    /\ Rep(a, s1) = Rep(a, s2)
+    /\ LET b1 == SetByOf(a, In1(a, s1))  b2 == SetByOf(a, In1(a, s2)) IN
+           \/ b1 = b2
+           \/ (b1 # 0 /\ b2 # 0 /\ Searchable(a, b1) /\ Searchable(a, b2) /\ ~IsDw(a, b1) /\ ~IsDw(a, b2)
+                  /\ Rep(a, MaskerSite(a, b1)) = Rep(a, MaskerSite(a, b2)))
+KF_Reuse(a) == \E n \in Layers(a) : Searchable(a, n) /\
+                   \E s1, s2 \in CallSites(a, Owner(a, n)) : s1 # s2 /\ ~ConsistentReuse(a, s1, s2)
 KF_DwOrphan(a) == \E n \in SearchLayers(a) : ~HasMasker(a, MaskerSite(a, n))
 \* an excluded layer sits in a non-frozen component together with a searchable layer
 KF_FixedInMaskedGroup(a) ==
